@@ -4,7 +4,7 @@ from hypothesis import strategies as st
 
 from vk.core import Violation, Obs, Part, HarnessError
 from vk import refmodel as rm, strategies as S
-from vk.build import build
+from vk.build import build, st_name
 
 ID = 'C18'
 RULE = ('Hypothesis-generated scan circuits (data inputs, a clock that reaches only clock pins, scan-in ports, outputs, DFF-kind flip-flops with '
@@ -41,6 +41,7 @@ def cases(draw, tier):
     for s_ in nl['st']:
         s_['c'] = f'i{ndata}'
     nl['ports'] = [f'i{k}' for k in range(nl['pi'])] + [f'o{k}' for k in range(len(nl['po']))]
+    nl['stnames'] = draw(st.one_of(st.just(0), st.integers(1, 1 << 24)))      # register names with capital-letter endings (s3SI, s0S, ...)
     perm = draw(st.permutations(list(range(nst))))
     cuts = sorted(draw(st.lists(st.integers(1, nst - 1), min_size=nchains - 1, max_size=nchains - 1, unique=True))) if nst > 1 else []
     if len(cuts) < nchains - 1:
@@ -112,7 +113,7 @@ def render(case):
         cells = []
         for k, cidx in enumerate(ch['cells']):
             cells += ['!'] * ch['marks'][k]
-            cells.append(f'"top.s{cidx}.SI"' if ch['dotted'] else f'"s{cidx}"')
+            cells.append(f'"top.{st_name(nl, cidx)}.SI"' if ch['dotted'] else f'"{st_name(nl, cidx)}"')
         cells += ['!'] * ch['marks'][len(ch['cells'])]
         stmts = [f'ScanIn "{ch["si"]}";', f'ScanOut "{ch["so"]}";', f'ScanCells {" ".join(cells)};']
         opt = [f'ScanLength {len(ch["cells"])};', 'ScanInversion 0;', f'ScanMasterClock "i{clk}";']
